@@ -214,6 +214,8 @@ func genEnvelope(r *rand.Rand, mask int, id uint64, bodySize int) (*Rpc, *bigRef
 	return e, big
 }
 
+var trSmallSizes = []int{0, 1, 17, 300}
+
 type genEnv struct {
 	E   *Rpc
 	Big *bigRef
@@ -226,7 +228,7 @@ func genEnvelopes(r *rand.Rand, sizes []int, extra int) []genEnv {
 	k := 0
 	for mask := 0; mask < 32; mask++ {
 		for rep := 0; rep < 2; rep++ {
-			size := sizes[k%len(sizes)]
+			size := trSmallSizes[k%len(trSmallSizes)]
 			e, big := genEnvelope(r, mask, trIDs[k%len(trIDs)], size)
 			out = append(out, genEnv{e, big})
 			k++
@@ -241,7 +243,11 @@ func genEnvelopes(r *rand.Rand, sizes []int, extra int) []genEnv {
 		}
 	}
 	for i := 0; i < extra; i++ {
-		e, big := genEnvelope(r, r.Intn(32), pick(r, trIDs)+uint64(r.Intn(3)), sizes[r.Intn(len(sizes))])
+		size := trSmallSizes[r.Intn(len(trSmallSizes))]
+		if r.Intn(12) == 0 {
+			size = sizes[r.Intn(len(sizes))]
+		}
+		e, big := genEnvelope(r, r.Intn(32), pick(r, trIDs)+uint64(r.Intn(3)), size)
 		out = append(out, genEnv{e, big})
 	}
 	return out
